@@ -71,7 +71,9 @@ def verify_contract(reg, c, timeout_ms=10000, feas_timeout_ms=2000, canary=True,
     except Exception as ex:
         res.error = f'cannot resolve {c.target}: {ex!r}'
         return res
+    feas_timeout_ms = c.options.get('feas_timeout_ms', feas_timeout_ms)
     eng = Engine(reg, timeout_ms=timeout_ms, feas_timeout_ms=feas_timeout_ms)
+    eng.options = dict(c.options)
     node = eng.src.get(func)
     if node is None:
         res.error = f'no source for {c.target}'
@@ -128,6 +130,18 @@ def verify_contract(reg, c, timeout_ms=10000, feas_timeout_ms=2000, canary=True,
             raise Infeasible()
         reach['requires_sat'] = True
         watch_fields(eng, env)
+        import ast as _ast
+        for w in c.watch:
+            try:
+                wv = eng.eval_expr_clause(_ast.parse(w, mode='eval').body, penv, c)
+                if wv.kind.name == 'opt':
+                    os_ = sort_of(wv.kind)
+                    eng.watch(w + ' is None', os_.is_none(wv.t))
+                    eng.watch(w, os_.val(wv.t))
+                elif wv.t is not None:
+                    eng.watch(w, wv.t)
+            except Unsupported:
+                pass
         old_heap = p.heap_snapshot()
         eng.old = (old_heap, penv)
         eng.loop_old_env = penv
